@@ -412,7 +412,7 @@ func TestC08(t *testing.T) {
 		"verified with VerifyTrickleDagStructure and read through the DagReader; non-trivial = base has more than width chunks (the append descends into the last sub-tree) " +
 		"and at least 2 chunks are appended; distinct by configuration")
 	cs := vh.NewCases(e, "From V Require Import lib.Tree model.M_C07 model.M_C08.\nOpen Scope Z_scope.", "case", "check_case", 50)
-	n, ncdc := e.Pick(330, 7000), e.Pick(12, 150)
+	n, ncdc := e.Pick(330, 2400), e.Pick(12, 80)
 	maxBase, maxApp := e.Pick(120, 200), e.Pick(80, 120)
 	cfgs := corpus()
 	for i := 0; i < n; i++ {
